@@ -598,7 +598,13 @@ def deep_alphas(d):
         # LARGE structures (a size-dependent branch of an encoder -- "for n >= 100 split the flags into blocks" -- only runs
         # there) with SPARSE patterns, which a solver decides at once: nothing, single elements at both ends and in the
         # middle, pairs and triples of them
-        k = len(_edges_of(d)) if f.startswith("active_edges") else _struct(d)[0]
+        if f.startswith("active_edges_connected_crossable") or f.startswith("active_edges_single_cycle_crossable"):
+            h, w = d["frame"]
+            k = (h + 1) * w + h * (w + 1)
+        elif f.startswith("active_edges") or f.startswith("division_connected_variable_groups"):
+            k = len(_edges_of(d))
+        else:
+            k = _struct(d)[0]
         picks = sorted(set(x for x in (0, 1, 2, k // 2, k // 2 + 1, k - 4, k - 3, k - 2, k - 1) if 0 <= x < k))
         out = [[False] * k]
         for r in (1, 2, 3):
@@ -606,6 +612,9 @@ def deep_alphas(d):
                 if r == 3 and rnd.random() < 0.6:
                     continue
                 out.append([i in comb for i in range(k)])
+        if f == "division_connected":
+            # labels instead of flags: label 1 on the picked vertices, and on whole suffixes
+            out = [[1 if b_ else 0 for b_ in a] for a in out] + [[1 if i >= c else 0 for i in range(k)] for c in (1, k // 2, k - 1)]
         return out
     if f == "active_vertices_connected":
         n, _ = _struct(d)
@@ -903,6 +912,9 @@ def deep_descs(prop, tier):
             out.append(dict(func="active_vertices_connected", n=101, edges=P(101), acyclic=acyclic, prim=False, form="vars", deep="sparse"))
             out.append(dict(func="active_vertices_connected", n=110, edges=C(110), acyclic=acyclic, prim=False, form="vars", deep="sparse"))
     if prop == "C05":
+        for allow in (False, True):
+            out.append(dict(func="division_connected", n=101, edges=P(101), R=2, roots=None, allow_empty=allow, prim=False, as_array=True, deep="sparse"))
+            out.append(dict(func="division_connected", grid=[8, 13], R=2, roots=None, allow_empty=allow, prim=False, deep="sparse"))
         for n in (8, 11):
             for R in (2, 3):
                 for allow in (False, True):
@@ -926,6 +938,8 @@ def deep_descs(prop, tier):
             for prim in (False, True) if fr[0] * fr[1] <= 10 else (False,):
                 out.append(dict(func="active_edges_single_cycle", frame=list(fr), prim=prim, deep=True))
     if prop == "C07":
+        out.append(dict(func="division_connected_variable_groups_with_borders", n=101, edges=P(101), size="none", prim=False, deep="sparse"))
+        out.append(dict(func="division_connected_variable_groups_with_borders", n=110, edges=C(110), size="none", prim=False, deep="sparse"))
         for n in (7, 9):
             for sf in ("none", "const%d" % n, "list:" + ",".join(["-"] * (n - 1) + [str(n)])):
                 for prim in (False, True):
@@ -937,6 +951,8 @@ def deep_descs(prop, tier):
         for g in ((5, 6), (6, 5), (3, 7)) + (((7, 6), (5, 8)) if big else ()):
             out.append(dict(func="division_connected_variable_groups", grid=list(g), size="none", deep=True))
     if prop == "C08":
+        out.append(dict(func="active_vertices_not_adjacent_and_not_segmenting", grid=[8, 13], as_grid=True, form="vars", deep="sparse"))
+        out.append(dict(func="active_vertices_not_adjacent", grid=[8, 13], as_grid=True, form="vars", deep="sparse"))
         for g in ((4, 6), (6, 4), (5, 7)) + (((4, 7), (7, 5), (3, 8), (8, 3), (6, 9), (9, 6), (5, 8)) if big else ()):
             out.append(dict(func="active_vertices_not_adjacent_and_not_segmenting", grid=list(g), as_grid=True, form="vars", deep=True))
             if g[0] * g[1] <= 40:
@@ -952,6 +968,8 @@ def deep_descs(prop, tier):
             out.append(dict(func="active_edges_acyclic", n=n, edges=C(n), form="vars", deep=True))
             out.append(dict(func="active_edges_acyclic", n=n, edges=[[0, i] for i in range(1, n)], form="vars", deep=True))
     if prop == "C10":
+        for sc in (False, True):
+            out.append(dict(func="active_edges_connected_crossable", frame=[7, 9], single_cycle=sc, prim=False, deep="sparse"))
         for fr in ((3, 3), (2, 4), (4, 2)) + (((3, 4), (4, 3)) if big else ()):
             for sc in (False, True):
                 for prim in (False,):      # the reference encoding of the native operator is cubic in the graph size
